@@ -42,7 +42,7 @@ CLAIMS = {
    text=("Decides the refusal clause (a nil test of a builder-computed witness of EACH prefix option panics before any traversal, for "
          "all three scan APIs), the every-value-encoder clause (scan value bytes are located only by the leaf array decoder Get uses; no "
          "GetEncodedSize(nil) fixed-width belief on read paths), the stop clause (false callback result ends ScanFrom; ScanFromTo's "
-         "wrapper returns false or the callback's result; the scan loop ends on a nil key, never on its length; the end-bound wrapper keeps no state across callbacks), delegation on every path and stickiness of exhaustion; the layout of the value array scans read is decided per element. Does not decide order/"
+         "wrapper returns false or the callback's result; the scan loop ends on a nil key, never on its length; the end-bound wrapper keeps no state across callbacks), delegation on every path and stickiness of exhaustion; the layout of the value array scans read is decided per element; session fields assigned on some decoder paths only are read under their discriminator, and never outside their producers when no discriminator exists. Does not decide order/"
          "uniqueness/completeness of yielded keys or bound inclusivity (runtime rank values)."),
    design="4/C04"),
  "C13": dict(
@@ -51,7 +51,7 @@ CLAIMS = {
          "depends by data or control flow on option InnerPrefix, LeafPrefix or Complete, so all modes with equal DedupValue build the same "
          "trie shape and retained key set and prefix options only add payload. This is the mechanism and a necessary condition of "
          "monotonicity; on the guarded summary of the option normalisation every path on which Complete can be true ends with InnerPrefix and "
-         "LeafPrefix pointing to true and no flag left nil; no wire field of one prefix section depends on the other prefix option; stored prefixes are "
+         "LeafPrefix pointing to true and no flag left nil, and no path without Complete == true stores true into a prefix option; no wire field of one prefix section depends on the other prefix option; stored prefixes are "
          "decoded under their validity discriminators with a length that reads the marker byte. It does not decide that the query side uses the payload only to reject."),
    design="4/C13"),
  "C17": dict(
@@ -61,7 +61,7 @@ CLAIMS = {
          "InnerPrefixes.Bytes / LeafPrefixes.Bytes; hence in filter mode nothing proportional to key length is stored; the element width of every "
          "per-node array outside the payload sections and the decision to build a per-node section at all carry no key-content label (the "
          "documented empty-trie marker excepted); a node is made 257-bit only under a lower bound (> K, K >= 4) on its own child count; the build uses no "
-         "process-wide state; no construction decision compares an absolute key bit position (or a quantity scaled from one) with a constant — positions are used only modulo their alignment, in differences and against other positions, so prepending a common prefix of whole bytes cannot change the shape. Does not decide the numeric bound of 8 bytes/key + 256 itself."),
+         "process-wide state; no construction decision compares an absolute key bit position (or a quantity scaled from one) with a constant — positions are used only modulo their alignment, in differences and against other positions, so prepending a common prefix of whole bytes cannot change the shape; a prefix option is switched on only by the caller's own flag or by Complete being true. Does not decide the numeric bound of 8 bytes/key + 256 itself."),
    design="4/C17"),
 
  "C05": dict(
@@ -83,7 +83,7 @@ CLAIMS = {
          "on a success path; loaders driven by constant tables are unrolled; no bitmap word is trimmed in place with, or overwritten by, mask(n&63) unguarded; helpers handed parts of the loaded message count as rewrites of it; the legacy "
          "loader never decides emptiness from the children array alone; no part of a split multi-byte quantity is modified in its own width "
          "before recombination (lost carry); legacy arrays are "
-         "ranked over their own (Bitmaps, Offsets). Does not decide the conversions' arithmetic on arbitrary old streams."),
+         "ranked over their own (Bitmaps, Offsets); guarded accesses to local fixed-size scratch arrays fit the array for the largest value their guards admit. Does not decide the conversions' arithmetic on arbitrary old streams."),
    design="4/C06"),
  "C07": dict(
    technique="finite version-table evaluation (blang/semver on constants) + CFG reachability with cut error edges",
@@ -92,7 +92,7 @@ CLAIMS = {
          "nothing and return an error derived from ErrIncompatible; after every stream read only an error return is reachable unless the err==nil "
          "edge of that read's nil test is taken (so every strict prefix is rejected, given pbcmpl's exact-size reads, re-checked on the pinned source; "
          "no direct protobuf decode of the remaining bytes); a fresh message is stored before the first early return and error paths leave it "
-         "untouched. Panics inside protobuf on corrupted (not truncated) bodies are not covered."),
+         "untouched; a cached emptiness flag in the derived-constants record is replaced on every rejected load. Panics inside protobuf on corrupted (not truncated) bodies are not covered."),
    design="4/C07"),
 
  "C14": dict(
@@ -119,7 +119,7 @@ CLAIMS = {
          "InitIndex/Init cannot reach their sentinel-error return after a receiver store or a use of the list other than the validation, every "
          "non-panicking path of Init carries the validation's success condition or returns the sentinel, every element is encoded in a unit-step loop "
          "over all elements and appended unconditionally (no goroutines), and "
-         "constructors return nil with the error; wrappers store nothing into their receiver before delegating to the validating initialiser; Elts is only ever the appended output of the element encoder; every array type is exactly Base->Array32. Rank offsets' own correctness and the protobuf "
+         "constructors return nil with the error; wrappers store nothing into their receiver before delegating to the validating initialiser; Elts is only ever the appended output of the element encoder; every array type is exactly Base->Array32 and Base holds nothing but the wire message and the element encoder. Rank offsets' own correctness and the protobuf "
          "round trip are not decided."),
    design="4/C16"),
  "C18": dict(
@@ -159,7 +159,7 @@ CLAIMS = {
          "exactly {0}, [1,16], [1,256] per branch under wrap-around interval evaluation (all bytes 0x00-0xff addressable, no sign extension); presence "
          "bitmaps are sized by the last ordinal plus one in the same builder counters; the value-array width is decided per element; in-place "
          "rewrites of node sizes touch only ordinals >= BigInnerCnt; every Encoder's Encode returns memory of its own (the builder keeps all results); the index into the short-node table is, by bit-provenance "
-         "evaluation over all (offset mod 64, ShortSize) cases, exactly the stored bits of the node, with no read beyond the node's last word. "
+         "evaluation over all (offset mod 64, ShortSize) cases, exactly the stored bits of the node, with no read beyond the node's last word; a rank query at a position T-1 uses the bit it returns. "
          "Does not decide that ranks select the right child."),
    design="4/C01"),
  "C10": dict(
@@ -171,7 +171,7 @@ CLAIMS = {
          "GetID, RangeGet/Search one descent, both descents update the cursor with identical terms; session fields the node decoders assign only "
          "for some nodes (bm, innerPrefix, leafPrefix) are assigned exactly when their discriminator says valid and read only under it, so a "
          "reused session never leaks a previous node's value, and the bit length of a stored prefix reads its marker byte; both descents compare the leaf "
-         "tail under the same section tests; no lookup, scan or build code ranges over key material by runes; the short-node extraction reads no word beyond the node for any offset and size (bit-provenance evaluation). No-panic in general needs data invariants "
+         "tail under the same section tests; no lookup, scan or build code ranges over key material by runes; the short-node extraction reads no word beyond the node for any offset and size (bit-provenance evaluation); a descent without step handling is reached only under a witness of stored inner prefixes; guarded accesses to local fixed-size arrays fit the array for the largest value their guards admit. No-panic in general needs data invariants "
          "and is not decided."),
    design="4/C10"),
  "C03": dict(
@@ -181,7 +181,7 @@ CLAIMS = {
          "prefix tests a three-way result for (in)equality with 0 and has exactly one side from which no found answer is reachable (a mismatch cannot be "
          "ignored); after the descent a found answer is given only if no leaf tails are stored at all, or the key ended exactly at a leaf without a "
          "tail, or the stored tail compared equal with the rest of the key; stored prefix and tail are read only under their validity discriminators; every "
-         "query byte value 0x00-0xff is addressable as a label; key material is never walked by runes; the value array layout is decided per element and nodes are decoded with the size they were built with. "
+         "query byte value 0x00-0xff is addressable as a label; key material is never walked by runes; the value array layout is decided per element and nodes are decoded with the size they were built with; everything GetID reads from the instance is replaced by every successful load. "
          "It does NOT decide that the comparisons are right for every byte string, nor anything about RangeGet/Search, ordering or neighbour "
          "bookkeeping (rank values and key bytes at run time) — most of the property's behaviour is outside this claim."),
    design="4/C03"),
